@@ -19,9 +19,6 @@ open A5
 /-- The exact number of cells of resolution `r`: 12 pentagonal faces, then `12·5·4^(r-1)`. -/
 def exactNumCells (r : Nat) : Nat := if r = 0 then 12 else 60 * 4 ^ (r - 1)
 
-/-- `|x|` on `Rat` (core has no `abs`) -/
-def ratAbs (x : Rat) : Rat := if x < 0 then -x else x
-
 /-- the `r`-th row of the generated area table -/
 def areaRow (r : Nat) : FConst := Gen.CELL_AREA_TABLE.getD r ⟨0, 0, 0⟩
 
